@@ -18,6 +18,7 @@ import sys
 from concurrent.futures import ThreadPoolExecutor
 
 VERIF = os.path.dirname(os.path.dirname(os.path.abspath(__file__)))
+SRC = VERIF        # where the checks are run from: a snapshot of the committed /verif unless --live
 ALL = ['C%02d' % i for i in range(1, 21)]
 
 
@@ -50,7 +51,7 @@ def one(job):
         if p.returncode:
             return name, prop, 'patch-does-not-apply', p.stderr.decode()[:200]
         env = dict(os.environ, VERIF_REPO=wt, VERIF_EVIDENCE=out + '/evidence', VERIF_REPLAYS=out + '/replays', VERIF_WORK=out + '/work')
-        p = subprocess.run([os.path.join(VERIF, 'check'), prop, '--tier', tier], cwd=VERIF, env=env, stdout=subprocess.PIPE, stderr=subprocess.STDOUT)
+        p = subprocess.run([os.path.join(SRC, 'check'), prop, '--tier', tier], cwd=SRC, env=env, stdout=subprocess.PIPE, stderr=subprocess.STDOUT)
         text = p.stdout.decode('utf-8', 'replace')
         with open(out + '.out', 'w') as f:
             f.write(text)
@@ -73,7 +74,12 @@ def main():
     ap.add_argument('--jobs', type=int, default=3)
     ap.add_argument('--seeded', action='store_true')
     ap.add_argument('--all-props', action='store_true')
+    ap.add_argument('--live', action='store_true', help='run the checks from /verif itself instead of a snapshot of its HEAD')
     a = ap.parse_args()
+    global SRC
+    if not a.live:
+        SRC = '/tmp/mxsnap_%d' % os.getpid()
+        subprocess.run(['git', '-C', VERIF, 'worktree', 'add', '-q', '--detach', SRC, 'HEAD'], check=True)
     os.makedirs('/tmp/mx', exist_ok=True)
     os.makedirs('/tmp/wt', exist_ok=True)
     names = list(a.names)
@@ -94,6 +100,8 @@ def main():
             sys.stdout.flush()
             if verdict != 'caught':
                 rc = 1
+    if not a.live:
+        subprocess.run(['git', '-C', VERIF, 'worktree', 'remove', '--force', SRC])
     return rc
 
 
